@@ -35,7 +35,7 @@ C1, C2, C3 = ts.tlv(8, b'a'), ts.tlv(8, b''), ts.tlv(32, b'k')
 CL = ts.tlv(8, b'L' * 253)          # one component whose value needs a 3-byte length
 
 KINDS = ['uint', 'uint1', 'uint2', 'uint4', 'uint8', 'bool', 'bytes', 'text', 'name', 'model',
-         'rep-uint', 'rep-bytes', 'rep-name', 'rep-model', 'map-uint-bytes', 'map-text-model', 'map-uint-uint', 'map-uint-model']
+         'rep-uint', 'rep-bytes', 'rep-name', 'rep-model', 'map-uint-bytes', 'map-text-model', 'map-uint-uint', 'map-uint-model', 'map-bytes-uint']
 
 
 def field_of(kind, n, types):
@@ -64,6 +64,8 @@ def field_of(kind, n, types):
                                                              {'n': 'z', 'k': 'text', 't': next(types)}]}}
     if kind == 'map-uint-bytes':
         return {'n': n, 'k': 'map', 't': t, 'key': {'n': None, 'k': 'uint', 't': t}, 'val': {'n': None, 'k': 'bytes', 't': next(types)}}
+    if kind == 'map-bytes-uint':
+        return {'n': n, 'k': 'map', 't': t, 'key': {'n': None, 'k': 'bytes', 't': t}, 'val': {'n': None, 'k': 'uint', 't': next(types)}}
     if kind == 'map-uint-uint':
         return {'n': n, 'k': 'map', 't': t, 'key': {'n': None, 'k': 'uint', 't': t}, 'val': {'n': None, 'k': 'uint', 't': next(types)}}
     if kind == 'map-uint-model':
@@ -350,6 +352,14 @@ def check_case(shape, values, tier, deep=True):
             except Exception as e:  # noqa
                 bad(f'encode-raises:{type(e).__name__}|changed-in-place:{f["k"]}', f'{e!r}')
     want = norm_values(shape, values)
+    try:
+        # what encode() itself returns (a writable buffer) must be readable as it is
+        back0 = cls.parse(make_instance(shape, values, cls).encode())
+        got0 = {f['n']: from_lib(f, getattr(back0, f['n'])) for f in shape}
+        if got0 != want:
+            bad('roundtrip|buffer-returned-by-encode', f'parse(m.encode()) fields {val_str(got0)} != {val_str(want)}')
+    except Exception as e:  # noqa
+        bad(f'parse-raises:{type(e).__name__}|buffer-returned-by-encode', f'parsing the buffer returned by encode() raised {e!r}')
     try:
         back = cls.parse(wire)
         got = {f['n']: from_lib(f, getattr(back, f['n'])) for f in shape}
